@@ -20,9 +20,12 @@
 (***************************************************************************)
 EXTENDS Integers, FiniteSets, TLC
 
-CONSTANTS N,       \* number of participants
-          Me,      \* own participant index
-          MaxVer   \* highest version among the candidate states
+CONSTANTS N,          \* number of participants
+          Me,         \* own participant index
+          MaxVer,     \* highest version among the candidate states
+          WithNarrow  \* TRUE: the unchecked ForceUpdate is also offered states with a missing balance column (C01, C09);
+                      \* FALSE for the persisted machine (C10): the stored form of a transaction has one signature per
+                      \* balance column, a state of another shape is outside what persistence is specified for
 
 Part == 0 .. (N-1)
 
@@ -46,7 +49,7 @@ Odd   == { [ver |-> v, fin |-> FALSE, tag |-> "a", sum |-> 1, idok |-> TRUE] : v
 (* "n" (narrow): a well-formed allocation with the channel's total that has one balance column fewer than the      *)
 (* channel has participants.  Update refuses it; the unchecked ForceUpdate stages it like any other state, with one *)
 (* signature slot per PARTICIPANT.                                                                                 *)
-Narrow == { [ver |-> v, fin |-> FALSE, tag |-> "n", sum |-> 0, idok |-> TRUE] : v \in 0..MaxVer }
+Narrow == IF WithNarrow THEN { [ver |-> v, fin |-> FALSE, tag |-> "n", sum |-> 0, idok |-> TRUE] : v \in 0..MaxVer } ELSE {}
 Cand == Plain \cup Odd \cup Narrow
 S0 == [ver |-> 0, fin |-> FALSE, tag |-> "a", sum |-> 0, idok |-> TRUE]  \* the initial state built by Init
 Twin(s) == [s EXCEPT !.tag = IF s.tag = "a" THEN "b" ELSE "a"]
